@@ -26,6 +26,7 @@ import (
 	"sync"
 	"time"
 
+	"github.com/coredns/coredns/request"
 	"github.com/miekg/dns"
 
 	"github.com/facebookincubator/dns/dnsrocks/db"
@@ -38,10 +39,16 @@ import (
 
 func init() { register("sem", semMain) }
 
+var semCacheOn bool // the handlers of the current file run with the response cache
+
+// semRecord: the current file asked for the Stats / Logger record of every query (opts.record)
+var semRecord bool
+
 // semConcurrent: queries are served from several goroutines; the process-wide db.SeparateBitMap switch is left alone
 var semConcurrent bool
 
 type semOpts struct {
+	Record   bool `json:"record"`
 	Builder  bool `json:"builder"`
 	NumCPU   int  `json:"numcpu"`
 	Batch    int  `json:"batch"`
@@ -76,6 +83,7 @@ type semIn struct {
 	RIP    string          `json:"rip"`
 	EDNS   bool            `json:"edns"`
 	DO     bool            `json:"do"`
+	EDNSV  int             `json:"ednsv"`
 	ECS    *semECS         `json:"ecs"`
 	MaxAns int             `json:"maxans"`
 	Reps   int             `json:"reps"`
@@ -110,6 +118,12 @@ type semResp struct {
 	HasECS  bool         `json:"hasecs"`
 	ECS     semRespECS   `json:"ecs"`
 	Err     string       `json:"err"`
+	// what the handler told its Stats / Logger while serving this query (only with opts.record)
+	Counters   map[string]int `json:"counters,omitempty"`
+	TypeKeys   int            `json:"typekeys"`
+	NLog       int            `json:"nlog"`
+	NLogFailed int            `json:"nlogfailed"`
+	LogSame    bool           `json:"logsame"`
 }
 
 type semLocObs struct {
@@ -125,6 +139,7 @@ type semBackend struct {
 	name string
 	h    *dnsserver.FBDNSDB
 	sep  bool // CDB with FBDNS_SEPARATE_MASKLENS semantics
+	rec  *semRec
 }
 
 type semWriter struct {
@@ -133,6 +148,7 @@ type semWriter struct {
 	n       int
 	packErr string
 	size    int
+	sent    string // the message handed to WriteMsg, as text
 }
 
 func (w *semWriter) LocalAddr() net.Addr  { return &net.UDPAddr{IP: net.ParseIP("127.0.0.1"), Port: 53} }
@@ -141,6 +157,7 @@ func (w *semWriter) WriteMsg(m *dns.Msg) error {
 	// what the client receives is the packed form: pack and unpack (an unpackable message is kept as is and flagged)
 	w.msg = m.Copy()
 	w.n++
+	w.sent = m.String()
 	wire, err := m.Pack()
 	if err != nil {
 		w.packErr = "pack: " + err.Error()
@@ -160,6 +177,52 @@ func (w *semWriter) Close() error                { return nil }
 func (w *semWriter) TsigStatus() error           { return nil }
 func (w *semWriter) TsigTimersOnly(bool)         {}
 func (w *semWriter) Hijack()                     {}
+
+// semRec records, per query, what the handler tells its Stats and Logger (C19)
+type semRec struct {
+	mu       sync.Mutex
+	c        map[string]int
+	nlog     int
+	nfail    int
+	logSame  bool
+	cur      *semWriter
+}
+
+func (r *semRec) reset(w *semWriter) {
+	r.mu.Lock()
+	r.c, r.nlog, r.nfail, r.logSame, r.cur = map[string]int{}, 0, 0, true, w
+	r.mu.Unlock()
+}
+func (r *semRec) IncrementCounter(k string) { r.IncrementCounterBy(k, 1) }
+func (r *semRec) IncrementCounterBy(k string, v int64) {
+	r.mu.Lock()
+	if r.c != nil {
+		r.c[k] += int(v)
+	}
+	r.mu.Unlock()
+}
+func (r *semRec) ResetCounter(string)          {}
+func (r *semRec) ResetCounterTo(string, int64) {}
+func (r *semRec) AddSample(k string, v int64) {
+	r.mu.Lock()
+	if r.c != nil {
+		r.c["sample:"+k]++
+	}
+	r.mu.Unlock()
+}
+func (r *semRec) Log(_ request.Request, m *dns.Msg, _ *dns.EDNS0_SUBNET) {
+	r.mu.Lock()
+	r.nlog++
+	if r.cur == nil || m == nil || r.cur.sent != m.String() {
+		r.logSame = false
+	}
+	r.mu.Unlock()
+}
+func (r *semRec) LogFailed(request.Request, *dns.Msg, *dns.EDNS0_SUBNET) {
+	r.mu.Lock()
+	r.nfail++
+	r.mu.Unlock()
+}
 
 type semNullStats struct{}
 
@@ -281,6 +344,9 @@ func semBuildQuery(in *semIn) *dns.Msg {
 		if in.DO {
 			o.SetDo()
 		}
+		if in.EDNSV != 0 {
+			o.SetVersion(uint8(in.EDNSV))
+		}
 		if in.ECS != nil && in.ECS.Raw != nil {
 			// hand-made option 8: family, source length, scope, address bytes as given
 			data := []byte{byte(in.ECS.F >> 8), byte(in.ECS.F), byte(in.ECS.Len), byte(in.ECS.Scope)}
@@ -332,7 +398,24 @@ func semServe(b *semBackend, in *semIn) (resp semResp) {
 			resp = semResp{Panic: fmt.Sprint(e), An: []semRR{}, Ns: []semRR{}, Ex: []semRR{}, ECS: semRespECS{B: []int{}}}
 		}
 	}()
+	if !semConcurrent && b.rec != nil {
+		b.rec.reset(w)
+	}
 	rc, err := b.h.ServeDNS(ctx, w, req)
+	defer func() {
+		if semRecord && !semConcurrent && b.rec != nil && resp.Panic == "" {
+			b.rec.mu.Lock()
+			resp.Counters = map[string]int{}
+			for k, v := range b.rec.c {
+				resp.Counters[k] = v
+				if strings.HasPrefix(k, dnsserver.TypeToStatsPrefix+".") {
+					resp.TypeKeys += v
+				}
+			}
+			resp.NLog, resp.NLogFailed, resp.LogSame = b.rec.nlog, b.rec.nfail, b.rec.logSame
+			b.rec.mu.Unlock()
+		}
+	}()
 	if w.msg == nil {
 		r := semResp{Written: false, Rcode: rc, An: []semRR{}, Ns: []semRR{}, Ex: []semRR{}, ECS: semRespECS{B: []int{}}}
 		if err != nil {
@@ -409,16 +492,17 @@ func (w *semWorld) close() {
 	os.RemoveAll(w.dir)
 }
 
-func semOpen(path, driver string, cache bool) (*dnsserver.FBDNSDB, error) {
+func semOpen(path, driver string, cache bool) (*dnsserver.FBDNSDB, *semRec, error) {
+	rec := &semRec{}
 	h, err := dnsserver.NewFBDNSDBBasic(dnsserver.HandlerConfig{}, dnsserver.DBConfig{Path: path, Driver: driver, ReloadTimeout: 10 * time.Second},
-		dnsserver.CacheConfig{Enabled: cache, LRUSize: 4096}, &dnsserver.DummyLogger{}, semNullStats{})
+		dnsserver.CacheConfig{Enabled: cache, LRUSize: 4096}, rec, rec)
 	if err != nil {
-		return nil, err
+		return nil, nil, err
 	}
 	if err := h.Load(); err != nil {
-		return nil, err
+		return nil, nil, err
 	}
-	return h, nil
+	return h, rec, nil
 }
 
 func semCompile(f *semIn, want map[string]bool) *semWorld {
@@ -451,12 +535,12 @@ func semCompile(f *semIn, want map[string]bool) *semWorld {
 				if !want[nm] {
 					continue
 				}
-				h, err := semOpen(out, "cdb", opts.Cache)
+				h, rec, err := semOpen(out, "cdb", opts.Cache)
 				if err != nil {
 					w.compErr[nm] = "open: " + err.Error()
 					continue
 				}
-				w.backends = append(w.backends, &semBackend{name: nm, h: h, sep: nm == "cdbsep"})
+				w.backends = append(w.backends, &semBackend{name: nm, h: h, sep: nm == "cdbsep", rec: rec})
 			}
 		}
 	}
@@ -475,12 +559,12 @@ func semCompile(f *semIn, want map[string]bool) *semWorld {
 			w.compErr[nm] = err.Error()
 			continue
 		}
-		h, err := semOpen(dir, "rocksdb", opts.Cache)
+		h, rec, err := semOpen(dir, "rocksdb", opts.Cache)
 		if err != nil {
 			w.compErr[nm] = "open: " + err.Error()
 			continue
 		}
-		w.backends = append(w.backends, &semBackend{name: nm, h: h})
+		w.backends = append(w.backends, &semBackend{name: nm, h: h, rec: rec})
 	}
 	return w
 }
@@ -516,6 +600,8 @@ func semMain(args []string) {
 				world.close()
 			}
 			world = semCompile(&e, want)
+			semRecord = e.Opts != nil && e.Opts.Record
+			semCacheOn = e.Opts != nil && e.Opts.Cache
 			nfiles++
 			names := []string{}
 			for _, b := range world.backends {
@@ -549,7 +635,7 @@ func semMain(args []string) {
 								res[b.name] = semServe(b, &e)
 							}
 							mu.Lock()
-							wr.Put(map[string]interface{}{"ev": "q", "file": e.File, "qid": e.QID, "q": e.Q, "r": res, "tag": e.Tag})
+							wr.Put(map[string]interface{}{"ev": "q", "file": e.File, "qid": e.QID, "q": e.Q, "r": res, "tag": e.Tag, "rec": false, "cache": semCacheOn})
 							nq++
 							mu.Unlock()
 						}
@@ -563,7 +649,7 @@ func semMain(args []string) {
 				for _, b := range world.backends {
 					res[b.name] = semServe(b, &e)
 				}
-				wr.Put(map[string]interface{}{"ev": "q", "file": e.File, "qid": e.QID, "q": e.Q, "r": res, "tag": e.Tag})
+				wr.Put(map[string]interface{}{"ev": "q", "file": e.File, "qid": e.QID, "q": e.Q, "r": res, "tag": e.Tag, "rec": semRecord, "cache": semCacheOn})
 				nq++
 			}
 		case "wire":
